@@ -84,7 +84,16 @@ def run_cross(c):
         A[0, 1] = A[1, 0] = 1
     if n2 >= 2:
         A[n1, n1 + 1] = A[n1 + 1, n1] = 1
-    net = InteractingNetworks(A.copy(), silence_level=3)
+    # the two groups sit at positions `ids` of the network (identity, reversed or interleaved numbering,
+    # by case): node lists are then NOT ascending, the cross block in list order is the same X
+    import zlib
+    variant = zlib.crc32(c["case"].encode()) % 3
+    ids = list(range(n)) if variant == 0 else list(range(n))[::-1] if variant == 1 else \
+        [k for k in range(n) if k % 2 == 0] + [k for k in range(n) if k % 2 == 1]
+    ids = np.array(ids)
+    Areal = np.zeros((n, n), dtype=int)
+    Areal[np.ix_(ids, ids)] = A
+    net = InteractingNetworks(Areal.copy(), silence_level=3)
     L = int(X.sum())
     draws = [v for pair in c["hist"] for v in pair]
     script = Script([d - 1 for d in draws])
@@ -94,7 +103,7 @@ def run_cross(c):
     exc = ""
     new = None
     try:
-        new = InteractingNetworks.RandomlyRewireCrossLinks(net, list(range(n1)), list(range(n1, n)),
+        new = InteractingNetworks.RandomlyRewireCrossLinks(net, [int(v) for v in ids[:n1]], [int(v) for v in ids[n1:]],
                                                            swaps=c["swaps"] / float(L))
     except RngExhausted:
         exc = "RngExhausted"
@@ -104,9 +113,11 @@ def run_cross(c):
         num.randint = saved
     rec["exc"] = exc
     rec["used"] = script.used
+    rec["numbering"] = ["identity", "reversed", "interleaved"][variant]
     rec["A0"] = enc.ints(A)
     rec["n1"] = n1
-    rec["A1"] = enc.ints(new.adjacency) if new is not None else []
+    # reported in the canonical numbering (group 1 first, in list order)
+    rec["A1"] = enc.ints(np.asarray(new.adjacency)[np.ix_(ids, ids)]) if new is not None else []
     rec["X0"] = enc.ints(X)
     return rec
 
@@ -246,7 +257,7 @@ def main(ctx):
 def replay(ctx, rep):
     rec = rep["record"]
     fn = {"geo": "run_geo", "cross": "run_cross", "seeded": "run_seeded"}[rec["blk"]]
-    drop = ("edges0", "A0", "A1", "D", "exc", "used", "X0", "n1")
+    drop = ("edges0", "A0", "A1", "D", "exc", "used", "X0", "n1", "numbering")
     case = {k: v for k, v in rec.items() if k not in drop}
     recs = ctx.run_cases("props.c17." + fn, [case], jobs=1)
     ctx.validate("Val_C17", "Val_C17", recs, nontrivial=_nontrivial)
